@@ -270,7 +270,34 @@ class IndexSpec(OpsSpec):
         return None
 
 
+class PathSpec(OpsSpec):
+    engine = "E-PATH"
+    engine_mod = "path"
+    run_cls = "PathRun"
+    level = "exploration"
+    quick_budget = 40
+    thorough_budget = 420
+    rule = ("seeded request targets from an adversarial grammar (dot segments, %2e forms in both cases and mixed, encoded / and \\, doubled and leading //, "
+            "over-long segments, escapes by exactly the depth of existing collections, hrefs inside multiget bodies) x every method that maps a URL to a path x "
+            "both front ends x three prefixes, interleaved with ordinary writes; every fs event of the server during the request (SimFS seam + audit hook) is "
+            "resolved and classified against the arena (root / tmp / decoys next to the root / system). Non-trivial: adversarial (method, target) pairs; distinct by digest")
+    assumptions = ("the decisive dimension is the request target (an input); the simulator contributes the complete fs observation, the two real decoders and the dependence on fs state",
+                   "the WSGI gateway stub does not normalise paths (real gateways may, which can only hide findings)")
+
+    def nontrivial_keys(self, res):
+        return res.get("nontrivial_keys", [])
+
+    def essential(self, agg):
+        if agg.stats.get("adversarial_requests", 0) < 50:
+            return "fewer than 50 adversarial requests"
+        if agg.stats.get("fs_events_observed", 0) < 500:
+            return "fewer than 500 fs events observed"
+        return None
+
+
 def spec_for(prop):
+    if prop == "C13":
+        return PathSpec()
     if prop == "C10":
         return IndexSpec()
     if prop == "C04":
